@@ -247,8 +247,53 @@ def job_kauri(L, m=2, long_m=None):
     return res
 
 
+def job_float_far(family):
+    """CONCRETE float64 witness (exact arithmetic cannot see overflow guards): ordinary rows predicted together with one row that is far
+    away (x 1e3) and with duplicated rows get the probabilities they get when predicted alone"""
+    res = _new()
+    rep_ = {"kind": "float-far", "family": family}
+    bad = replay(rep_)
+    res["paths"] = 1
+    res["obligations"].append({"name": f"float-far-row/{family}: rows predicted with a far-away row == the same rows predicted without it / one by one", "verdict": "sat" if bad else "unsat", "how": "concrete float64 run"})
+    if bad:
+        res["violations"].append({"signature": f"{PROP}:{family}:float-far-row", "what": f"{family}: the probabilities of ordinary rows change when a far-away row is part of the same call", "replay": rep_})
+    return res
+
+
+def _float_far_run(rep, verbose):
+    family = rep["family"]
+    shape = {"LinearModel": (6, 2, 3), "MLPModel": (6, 2, 3, 3), "Douglas": (6, 2, 2, 3), "KernelRIM": (6, 3), "SparseLinearModel": (6, 2, 3)}[family]
+    rng = np.random.RandomState(8)
+    for temperature in (0.1, 0.02):
+        mdl, X, params, dm, G = cm.build_concrete(family, shape, {}, hyper=None)
+        for _, arr in params:
+            arr[...] = rng.normal(size=arr.shape)
+        d = dm["d"] if cm.BASE[family] != "kernelrim" else 2
+        if cm.BASE[family] == "kernelrim":
+            T = rng.normal(size=(dm["n"], d))
+            mdl.input_data_ = T
+            mdl._training_kernel = mdl._compute_kernel(T.copy())
+        if cm.BASE[family] == "douglas":
+            mdl.temperature = temperature
+        mdl.labels_ = np.zeros(1)
+        Xn = rng.normal(size=(7, d))
+        for far in (1e3, -1e3, 40.0):
+            Xf = np.vstack([Xn, Xn[:1] * 0 + far, Xn[:2]])
+            with np.errstate(all="ignore"):
+                full = mdl.predict_proba(Xf)
+                alone = np.vstack([mdl.predict_proba(Xf[i:i + 1]) for i in range(len(Xf))])
+                part = mdl.predict_proba(Xn)
+            if not (np.allclose(full, alone, rtol=1e-9, atol=1e-12, equal_nan=True) and np.allclose(full[:len(Xn)], part, rtol=1e-9, atol=1e-12, equal_nan=True)):
+                if verbose:
+                    print(family, "temperature", temperature, "far value", far, "max difference", float(np.nanmax(np.abs(full - alone))))
+                return True
+    return False
+
+
 def replay(rep, verbose=False):
     rng = np.random.default_rng(4)
+    if rep["kind"] == "float-far":
+        return _float_far_run(rep, verbose)
     if rep["kind"] == "kauri":
         kmod = loader.real("tree.kauri")
         U = loader.real("tree._utils")
@@ -338,7 +383,9 @@ def jobs(tier):
         # the training batch size must not matter at prediction time (more rows than one batch, not a multiple of it)
         out.append({"name": f"{fam}/{cm.shape_str(sh)}/m2/long70/batch16", "target": "checks.c18:job_model", "kwargs": dict(family=fam, shape=sh, m=2, long_m=70, hyper={"batch_size": 16}), "timeout": 280 if q else 2400})
         out.append({"name": f"{fam}/{cm.shape_str(sh)}/m3/batch2", "target": "checks.c18:job_model", "kwargs": dict(family=fam, shape=sh, m=3, hyper={"batch_size": 2}), "timeout": 280 if q else 2400})
-    for L in ([2, 3] if q else [2, 3, 4]):
+    for fam in ("LinearModel", "MLPModel", "Douglas", "KernelRIM", "SparseLinearModel"):
+        out.append({"name": f"float-far-row/{fam}", "target": "checks.c18:job_float_far", "kwargs": dict(family=fam), "timeout": 200})
+    for L in ([2, 3, 4] if q else [2, 3, 4, 5]):
         out.append({"name": f"kauri/L{L}", "target": "checks.c18:job_kauri", "kwargs": dict(L=L, m=2), "timeout": 280 if q else 2400})
         if L <= 3:
             out.append({"name": f"kauri/L{L}/long70", "target": "checks.c18:job_kauri", "kwargs": dict(L=L, m=2, long_m=70), "timeout": 280 if q else 2400})
